@@ -146,6 +146,8 @@ def agrees(contract, exp, ctx, observed):
         except Exception:
             return None
     t, exact = values_equal(ctx.st, val, got)
+    if not exact:
+        return None           # the comparison could not be made (symbolic residue on the specification side): no verdict
     try:
         return is_true(ctx.st, t)
     except ValueError:
